@@ -2,6 +2,9 @@
 
 package crlreader
 
+//@ forbid_tags[C18] CRLMetaInfo: stored records use the default encoding (at most a tagged optional last field) that the assumed round trip of encoding/asn1 covers
+//@ forbid_tags[C18] ExtendedCRLMetaInfo: stored records use the default encoding (at most a tagged optional last field) that the assumed round trip of encoding/asn1 covers
+
 // ---- consumer interface
 
 
